@@ -237,6 +237,9 @@ func (g *gen) weighted(ws []int) int {
 var outputFlagNames = []string{"compact", "raw_string", "join_output", "null_output", "color_output", "monochrome_output", "unicode_output", "value_output"}
 
 func (g *gen) pickFile() string {
+	if g.chance(15) {
+		return g.pick([]string{"fifo_a.json", "fifo_n.json", "fifo.png", "fifo_u.bin", "cdev_a.json"})
+	}
 	switch g.weighted([]int{30, 20, 15, 12, 12, 8}) {
 	case 0:
 		return g.pick([]string{"a.json", "b.json"})
@@ -256,6 +259,9 @@ func (g *gen) pickFile() string {
 func (g *gen) pickProg() string {
 	switch g.weighted([]int{45, 20, 10, 10, 5}) {
 	case 0:
+		if g.chance(20) {
+			return g.pick([]string{"def f: 1;", "", "# c", "def f: 1; # c", "def f: 1; def g: f;", "def f: .; f", " "})
+		}
 		return g.pick([]string{".", ".", ".a?", ".,.", "empty", "-1", "type", "[.]"})
 	case 1:
 		if g.chance(50) {
@@ -305,6 +311,10 @@ func (g *gen) runArgv() (argv []string, marks []bool, stdin string) {
 	}
 	if g.chance(5) {
 		addFlag(g.pick([]string{"-ns", "-sR", "-Rc", "-nr", "-sc"}))
+	}
+	// --repl: the virtual terminal is at EOF, so the run is "read the inputs, run the program on each, leave"
+	if g.chance(8) {
+		addFlag(g.pick([]string{"-i", "--repl", "-ic", "-in"}))
 	}
 	valued := func(name, v string) {
 		k := g.formOf(name)
@@ -359,7 +369,8 @@ func (g *gen) runArgv() (argv []string, marks []bool, stdin string) {
 	case g.chance(10):
 		hasExprFile = true
 		k := g.formOf("expr_file")
-		v := g.pick([]string{"p_ok.jq", "p_ok.jq", "p_fnum.jq", "p_fall.jq", "p_nc.jq", "p_miss.jq", "a.json"})
+		v := g.pick([]string{"p_ok.jq", "p_ok.jq", "p_fnum.jq", "p_fall.jq", "p_nc.jq", "p_miss.jq", "a.json",
+			"p_defs.jq", "p_empty.jq", "p_comment.jq", "p_defs_comment.jq", "p_ok.fifo"})
 		if g.chance(40) {
 			flags = append(flags, unit{toks: []string{k + "=" + v}, exprFile: true})
 		} else {
